@@ -5,6 +5,7 @@ git merge -q --no-edit "$1" >/dev/null 2>&1
 git checkout --ours MANIFEST.json known_findings.json 2>/dev/null
 python3 tools/gen_manifest.py
 git add MANIFEST.json known_findings.json
+python3 tools/resolve_meta.py
 if git diff --name-only --diff-filter=U | grep -q .; then echo "UNRESOLVED:"; git diff --name-only --diff-filter=U; exit 1; fi
 git commit -q --no-edit -m "Merge branch '$1'" 2>/dev/null || git commit -q -m "Merge branch '$1'" 2>/dev/null
 git log --oneline | head -1
